@@ -128,6 +128,8 @@ struct PacketRecipe
     uint8_t flags{0};
     uint8_t viaApi{0};
     uint8_t emptyPayload{0};  // generic only: 1 = a payload object of zero bytes (C09 / C10; the round-trip properties exclude it)
+    uint8_t inPlace{0};       // CAN / CAN-FD / LIN / Ethernet / analog: 1 = the packet first gets the payload with another data length,
+                              // then the data is set in place through the non-const Packet::getPayload() (as the library's example does)
 
     void io(Ar& a)
     {
@@ -142,6 +144,7 @@ struct PacketRecipe
         a.num("flags", flags);
         a.num("viaApi", viaApi);
         a.optionalNum("emptyPayload", emptyPayload);
+        a.optionalNum("inPlace", inPlace);
     }
 
     uint8_t messageType() const
@@ -499,7 +502,38 @@ inline lib::Payload buildPayload(const PacketRecipe& r)
 // fills an existing packet in place (no Packet copy / move involved)
 inline void fillPacket(lib::Packet& p, const PacketRecipe& r, uint8_t version)
 {
-    p.setPayload(buildPayload(r));
+    if (r.inPlace && r.kind >= rkCan && r.kind <= rkEthernet)
+    {
+        // the payload object inside the packet is resized after it was handed over: header fields come from the first build
+        // (they depend on the seed only), the data and its length from the edit in place
+        PacketRecipe first = r;
+        first.len = r.len >= 2 ? r.len / 2 : r.len + 5;
+        first.len = std::min<uint32_t>(first.len, PacketRecipe::maxLen(r.kind));
+        p.setPayload(buildPayload(first));
+        RecipeFields f = deriveFields(r);
+        static const uint8_t dummy = 0;
+        const uint8_t* data = f.data.empty() ? &dummy : f.data.data();
+        switch (r.kind)
+        {
+            case rkCan:
+                static_cast<lib::CanPayload&>(p.getPayload()).setData(data, static_cast<uint8_t>(f.data.size()));
+                break;
+            case rkCanFd:
+                static_cast<lib::CanFdPayload&>(p.getPayload()).setData(data, static_cast<uint8_t>(f.data.size()));
+                break;
+            case rkLin:
+                static_cast<lib::LinPayload&>(p.getPayload()).setData(data, static_cast<uint8_t>(f.data.size()));
+                break;
+            case rkEthernet:
+                static_cast<lib::EthernetPayload&>(p.getPayload()).setData(data, static_cast<uint16_t>(f.data.size()));
+                break;
+            default:
+                static_cast<lib::AnalogPayload&>(p.getPayload()).setData(data, f.data.size());
+                break;
+        }
+    }
+    else
+        p.setPayload(buildPayload(r));
     // the packet's own frame-level members are set to values that differ from any encoder configuration: an encoder must
     // take device id, stream id and counter from its own state, never from the packets
     p.setDeviceId(static_cast<uint16_t>(mix(r.seed, 77) | 0x0100));
